@@ -231,6 +231,9 @@ def jobs(tier):
         for j, c in enumerate(comps[::5]):
             out.append(('hier', 'case_hier', dict(
                 units=c, n_ids=2, fix=j), {}))
+    for k, c in enumerate(c02.extra_quick()):
+        out.append(('hier', 'case_hier', dict(
+            units=c, n_ids=2, posterior=(k % 2 == 0)), {}))
     PK = {'facade': {'myokit': True}, 'diffcheck': False}
     for direct in (True, False):
         for ems in (['Gaussian'], ['LogNormal'], ['ConstantAndMultiplicative'],
